@@ -71,6 +71,7 @@ func (p *Party) Normalize(normalizers tax.Normalizers) {
 	}
 
 	uuid.Normalize(&p.UUID)
+	p.NormalizeRegime()
 	p.Ext = tax.CleanExtensions(p.Ext)
 
 	if p.TaxID != nil {
